@@ -1405,6 +1405,11 @@ class Store:
                 deep_merge_check(
                     processes,
                     copy.deepcopy(mother_store.get_steps()) or {})
+                # a command the mother has not finished (an update in
+                # flight) is hers: the copies start afresh
+                for _, process in dict_to_paths((), processes):
+                    process._pending_command = None
+                    process._command_result = None
 
             # get the daughter topology
             if 'topology' in daughter:
